@@ -1,24 +1,74 @@
 import DarkluaModel.Shared.AstSexp
+import DarkluaModel.Shared.FloatOps
 import DarkluaModel.Rules.EmptyDo
-/-! Line-protocol handlers for property C01: `c01.rule <rule-name-hex> <block>` → block -/
+import DarkluaModel.Rules.EvalLite
+import DarkluaModel.Rules.UnusedWhile
+import DarkluaModel.Rules.UnusedIfBranch
+import DarkluaModel.Rules.FilterEarlyReturn
+import DarkluaModel.Rules.MethodDef
+import DarkluaModel.Rules.CallParens
+import DarkluaModel.Rules.Trivia
+import DarkluaModel.Rules.ComputeExpression
+/-! Line-protocol handlers for property C01:
+* `c01.rule <rule-name-hex> <block>` → transformed block, or `evallite-uncovered` when the rule
+  needs the static evaluator on an expression `Rules/EvalLite.lean` does not cover;
+* `c01.rules` → the modelled rule names. -/
 namespace DarkluaModel.C01
+open DarkluaModel.Rules
+
+/-- the evaluator instance the driver runs the rule models with -/
+def driverApi : EvalApi := EvalLite.api floatOps
+
+/-- rules that consult the evaluator -/
+def usesEvaluator (name : String) : Bool :=
+  ["remove_unused_while", "remove_unused_if_branch", "compute_expression", "convert_index_to_field",
+   "remove_nil_declaration", "remove_unused_variable"].contains name
 
 /-- the modelled default rules, by darklua rule name -/
 def applyRule (name : String) (b : Block) : Option Block :=
   match name with
   | "remove_empty_do" => some (Rules.EmptyDo.apply b)
+  | "remove_unused_while" => some (Rules.UnusedWhile.apply driverApi b)
+  | "remove_unused_if_branch" => some (Rules.UnusedIfBranch.apply driverApi b)
+  | "filter_after_early_return" => some (Rules.FilterEarlyReturn.apply b)
+  | "remove_method_definition" => some (Rules.MethodDef.apply b)
+  | "remove_function_call_parens" => some (Rules.CallParens.apply b)
+  | "compute_expression" => some (Rules.ComputeExpression.apply driverApi b)
+  | "remove_spaces" => some (Rules.Trivia.removeSpaces b)
+  | "remove_comments" => some (Rules.Trivia.removeComments b)
   | _ => none
+
+def modelled : List String :=
+  ["remove_empty_do", "remove_unused_while", "remove_unused_if_branch", "filter_after_early_return",
+   "remove_method_definition", "remove_function_call_parens", "remove_spaces", "remove_comments", "compute_expression"]
+
+/-- the hypothesis `H` of the rule's theorem on this block: `in`, or `out <why>` -/
+def region (name : String) (b : Block) : String :=
+  if usesEvaluator name then
+    match EvalLite.evalRegion floatOps b with
+    | some why => "out " ++ why
+    | none =>
+      if name == "compute_expression" && Rules.ComputeExpression.outsideH driverApi b then
+        "out F5 and/or folded to a multi-valued operand"
+      else "in"
+  else "in"
 
 def handle (op : String) (args : List String) : String :=
   match op, Sexp.parseArgs args with
   | "rule", some [name, block] =>
     match nameOfSexp? name, Block.ofSexp? block with
     | some n, some b =>
-      match applyRule n b with
-      | some b' => b'.toSexp.toString
-      | none => "unknown-rule"
+      if usesEvaluator n && !EvalLite.covers floatOps b then "evallite-uncovered"
+      else
+        match applyRule n b with
+        | some b' => b'.toSexp.toString
+        | none => "unknown-rule"
     | _, _ => "bad-request"
-  | "rules", _ => "remove_empty_do"
+  | "region", some [name, block] =>
+    match nameOfSexp? name, Block.ofSexp? block with
+    | some n, some b => region n b
+    | _, _ => "bad-request"
+  | "rules", _ => " ".intercalate modelled
   | _, _ => "unknown-op " ++ op
 
 end DarkluaModel.C01
